@@ -64,6 +64,8 @@ class Tr:
         if isinstance(e, ast.IfExp): return self.typ(e.body)
         if isinstance(e, ast.Call):
             n = self.callee(e)
+            if n == 'bool' and len(e.args) == 1: return 'bool'
+            if n == 'int' and len(e.args) == 1: return 'Z'
             if n in self.calls: return self.calls[n][2]
             raise Unsupported('call ' + str(n))
         if isinstance(e, ast.Subscript):
